@@ -126,6 +126,22 @@ class _Recorder:
         return m
 
 
+class _NativeMake:
+    """ctx facade inside a patched __init__: make_obj fills the object under construction"""
+
+    def __init__(self, ctx, slf):
+        self._ctx = ctx
+        self._slf = slf
+
+    def make_obj(self, cls, **attrs):
+        for k, v in attrs.items():
+            setattr(self._slf, k, v)
+        return self._slf
+
+    def __getattr__(self, n):
+        return getattr(self._ctx, n)
+
+
 class Ctx:
     def __init__(self, model, harness, case):
         self.model = model
@@ -137,9 +153,16 @@ class Ctx:
         self.notes = []
         self.ghost = {}
 
-    # ---- inputs come from the counter-model
+    # ---- inputs come from the counter-model (or, in the follow-up search, are redrawn at random)
+    fuzz = None
+
     def int(self, name, lo=None, hi=None):
         v = self.model.get(name)
+        if self.fuzz is not None and self.fuzz.random() < 0.6:
+            a = lo if lo is not None else -4
+            b = hi if hi is not None else (a + 2 ** self.fuzz.choice([3, 8, 16, 33, 62]))
+            r = self.fuzz.random()
+            v = a if r < 0.1 else b if r < 0.2 else self.fuzz.randint(a, min(b, a + 300)) if r < 0.5 else self.fuzz.randint(a, b)
         if v is None:
             v = lo if lo is not None else 0
         if (lo is not None and v < lo) or (hi is not None and v > hi):
@@ -147,11 +170,16 @@ class Ctx:
         return v
 
     def bool(self, name):
+        if self.fuzz is not None and self.fuzz.random() < 0.5:
+            return self.fuzz.random() < 0.5
         return bool(self.model.get(name, False))
 
     def bytes(self, name, length=None, min_len=0, max_len=None):
         v = self.model.get(name)
         b = bytes.fromhex(v["hex"]) if isinstance(v, dict) and "hex" in v else b""
+        if self.fuzz is not None and self.fuzz.random() < 0.6:
+            n = length if length is not None else self.fuzz.randint(min_len, min(max_len if max_len is not None else min_len + 64, min_len + 64))
+            b = bytes(self.fuzz.getrandbits(8) for _ in range(n))
         if length is not None:
             b = (b + bytes(length))[:length]
         if len(b) < min_len:
@@ -162,6 +190,8 @@ class Ctx:
         return bytearray(self.bytes(name, **kw))
 
     def choice(self, name, options):
+        if self.fuzz is not None and self.fuzz.random() < 0.5:
+            return self.fuzz.choice(options)
         return options[self.model.get(name, 0)]
 
     def encode_be(self, name, value, width, first_max=255):
@@ -172,6 +202,92 @@ class Ctx:
 
     def fill(self, value, length):
         return bytes([value]) * length
+
+    def int_map(self, name):
+        d = {}
+        i = 0
+        while "%s.q%d.key" % (name, i) in self.model:
+            if self.model.get("%s.q%d.in" % (name, i)):
+                d[self.model["%s.q%d.key" % (name, i)]] = self.model["%s.q%d.val" % (name, i)]
+            i += 1
+        if self.model.get(name + ".nonempty") and not d:
+            d[70001] = 70002        # an entry that no query touched
+        self._maps = getattr(self, "_maps", []) + [(d, dict(d))]
+        return d
+
+    def map_unmodified(self, m):
+        return all(cur == orig for cur, orig in getattr(self, "_maps", []) if cur is m)
+
+    def is_bool(self, v):
+        return isinstance(v, bool)
+
+    def map_has(self, m, k):
+        return k in m
+
+    def map_val(self, m, k):
+        return m[k]
+
+    def map_get(self, m, k, d):
+        return m.get(k, d)
+
+    def namespace(self, **attrs):
+        import argparse
+        return argparse.Namespace(**attrs)
+
+    def decimal(self, v):
+        return str(v)
+
+    def dict_get(self, d, k):
+        return d.get(k)
+
+    def same_object(self, a, b):
+        return a is b or (isinstance(a, (bool, int)) and a == b)
+
+    def is_external(self, v, dotted):
+        return v is _resolve(dotted)
+
+    def truth_fork(self, cond):
+        return bool(cond)
+
+    def module_global(self, module, name):
+        return getattr(_resolve(module), name)
+
+    def model(self, dotted, fn):
+        import unittest.mock as um
+        parts = dotted.rsplit(".", 1)
+        mod = _resolve(parts[0])
+        p = um.patch.object(mod, parts[1], fn)
+        p.start()
+        self._patches = getattr(self, "_patches", []) + [p]
+
+    def summary_override(self, qualname, fn):
+        import unittest.mock as um
+        parts = qualname.rsplit(".", 1)
+        owner = _resolve(parts[0])
+        ctx = self
+        if parts[1] == "__init__":
+            def init(slf, *a, **k):
+                fn(_NativeMake(ctx, slf), type(slf), *a, **k)
+            p = um.patch.object(owner, "__init__", init)
+        else:
+            p = um.patch.object(owner, parts[1], lambda *a, **k: fn(ctx, *a, **k))
+        p.start()
+        self._patches = getattr(self, "_patches", []) + [p]
+
+    def make_obj(self, cls, **attrs):
+        o = cls.__new__(cls)
+        for k, v in attrs.items():
+            setattr(o, k, v)
+        return o
+
+    def lib(self, dotted, *args, **kw):
+        return _resolve(dotted)(*args, **kw)
+
+    def libmethod(self, obj, name, *args, **kw):
+        return getattr(obj, name)(*args, **kw)
+
+    def concrete(self, v):
+        return v
 
     def bytearray_of(self, b):
         return bytearray(b)
